@@ -344,7 +344,10 @@ class BasePerformance(events_lib.EventSequence):
     notes = [note for note in quantized_sequence.notes
              if note.quantized_start_step >= start_step
              and (instrument is None or note.instrument == instrument)]
-    sorted_notes = sorted(notes, key=lambda note: (note.start_time, note.pitch))
+    # Velocity breaks ties between duplicate notes, so that the velocity events
+    # do not depend on the order in which the notes are stored.
+    sorted_notes = sorted(
+        notes, key=lambda note: (note.start_time, note.pitch, note.velocity))
 
     # Sort all note start and end events.
     onsets = [(note.quantized_start_step, idx, False)
@@ -818,7 +821,11 @@ class NotePerformance(BasePerformance):
     notes = [note for note in quantized_sequence.notes
              if note.quantized_start_step >= self.start_step
              and (instrument is None or note.instrument == instrument)]
-    sorted_notes = sorted(notes, key=lambda note: (note.start_time, note.pitch))
+    # Velocity and end time break ties between duplicate notes, so that the
+    # result does not depend on the order in which the notes are stored.
+    sorted_notes = sorted(
+        notes, key=lambda note: (note.start_time, note.pitch, note.velocity,
+                                 note.end_time))
 
     current_step = self.start_step
     performance_events = []
